@@ -196,7 +196,7 @@ theorem parseConverterLine_effect (env : Env) (c c' : ConvCfg) (l : S)
     split at hr
     · cases hr; cases f <;> rfl
     · cases hr
-  · cases h
+  · split at h <;> first | (cases h; rfl) | (cases h; cases f <;> rfl) | cases h
 
 end Gv.Settings
 
@@ -239,7 +239,7 @@ theorem parseMethodLine_effect (env : Env) (m m' : MethodCfg) (l : S)
   · split at h <;> (split at h <;> first | (cases h; rfl) | cases h)
   · obtain ⟨s, _, hr⟩ := bind_ok h
     cases hr; rfl
-  · cases h
+  · split at h <;> first | (cases h; rfl) | (cases h; cases f <;> rfl) | cases h
 
 theorem parseConverterLines_effect (env : Env) (lvl : String) (ls : List S) : ∀ (c c' : ConvCfg),
     parseConverterLines env lvl c ls = .ok c' → ∀ f : BF,
